@@ -158,7 +158,9 @@ def main():
     res["nextest_summary"] = o.strip()[-300:]
     stable = set(json.load(open("/root/.vp/BASELINE.json"))["stable_pass"])
     try:
-        t = ET.parse(tgt + "/nextest/pb/junit.xml")
+        import os.path
+        cands = [x for x in (tgt + "/nextest/pb/junit.xml", wt + "/target/nextest/pb/junit.xml") if os.path.exists(x)]
+        t = ET.parse(max(cands, key=os.path.getmtime))
         got = {}
         for tc in t.iter("testcase"):
             got[tc.get("classname") + "::" + tc.get("name")] = not (tc.find("failure") is not None or tc.find("error") is not None)
